@@ -15,12 +15,16 @@
  *     N <sess> <mid> <code> <tok>         peer's NON with that mid arrives (not a reply to the CON)
  *     D <sess> <reason>                   coap_session_disconnected(session, reason); the session is dead
  *                                         afterwards (its socket is closed): later events on it are skipped
+ *     I <timeout_ms>                      coap_io_process(ctx, timeout_ms) (0 = COAP_IO_WAIT, 4294967295 =
+ *                                         COAP_IO_NO_WAIT); epoll_wait is interposed: it moves the clock by
+ *                                         the timeout it is given and reports no event
  *     Q                                   dump the send queue (absolute deadlines)
  *   first, per session, what the getters report after the setters ran: 0.cfg:<k>:<at_ip>:<at_fp>:<arf_ip>:<arf_fp>:<max>
  *   output items, each prefixed with "<index of the event>." (times relative to the start of the case):
  *     s:<ret>  tx:<t>:<sess>:<bytes>  nk:<t>:<sess>:<reason>:<mid>:<has_pdu>
  *     w:<t>:<ms>:<deadline of the queue head or -1>
  *     q:<t>:<deadline>/<sess>/<mid>/<cnt>,...
+ *     ep:<t>:<timeout given to epoll_wait>   io:<t>:<return value of coap_io_process>
  *
  *   calc <at_ip> <at_fp> <arf_ip> <arf_fp> <r>   -> coap_calc_timeout (leaf sweep)
  *   qops <op>*                                    -> the send-queue primitives on hand-made nodes
@@ -81,6 +85,19 @@ static coap_response_t on_resp(coap_session_t *s, const coap_pdu_t *sent, const 
                                const coap_mid_t mid) {
   (void)s; (void)sent; (void)rcv; (void)mid;
   return COAP_RESPONSE_OK;
+}
+
+/* epoll_wait as seen by coap_io_process(): sleeping = advancing the virtual clock; nothing is
+ * ever readable (datagrams are injected through coap_io_do_epoll by the driver itself) */
+static int g_ep_calls;
+int __wrap_epoll_wait(int epfd, struct epoll_event *events, int maxevents, int timeout) {
+  (void)epfd; (void)events; (void)maxevents;
+  if (g_logging && g_ep_calls++ == 0) {
+    item_sep();
+    printf("ep:%llu:%d", (unsigned long long)(vn_now - g_t0), timeout);
+  }
+  if (timeout > 0) vn_now += (coap_tick_t)timeout;
+  return 0;
 }
 
 static void dump_queue(void) {
@@ -222,6 +239,12 @@ static void c06(void) {
       vn_inject_session(g_ctx, g_sess[s], b, 4 + tl);
       free(tok);
       i += 5;
+    } else if (c == 'I' && i + 1 < vntok) {
+      g_ep_calls = 0;
+      int r = coap_io_process(g_ctx, (uint32_t)strtoul(vtok[i + 1], NULL, 10));
+      item_sep();
+      printf("io:%llu:%d", (unsigned long long)(vn_now - g_t0), r);
+      i += 2;
     } else if (c == 'Q') {
       dump_queue();
       i += 1;
